@@ -283,6 +283,77 @@ def r1_2(repo: Repo) -> RuleResult:
     return rr
 
 
+def _same_length(a: ast.AST, b: ast.AST) -> Optional[bool]:
+    """Do the iterables handed to indices.extend / data.extend have the same length by construction?  None = unknown form."""
+    sa, sb = norm(a), norm(b)
+    for x, y in ((sa, sb), (sb, sa)):
+        if x.endswith(".keys()") and y == x[:-7] + ".values()":
+            return True
+        if x.endswith(".keys()") and y == x[:-7]:
+            return True
+    for lst, other in ((a, b), (b, a)):
+        if isinstance(lst, ast.Name):
+            L = lst.id
+            so = norm(other)
+            if "range(len(%s))" % L in so and isinstance(other, (ast.ListComp, ast.GeneratorExp)) and len(other.generators) == 1 and not other.generators[0].ifs:
+                return True
+            if isinstance(other, ast.BinOp) and isinstance(other.op, ast.Mult) and "len(%s)" % L in (norm(other.left), norm(other.right)):
+                return True
+            if isinstance(other, ast.Call) and norm(other.func) in ("np.ones", "numpy.ones", "np.full") and other.args and "len(%s)" % L in norm(other.args[0]):
+                return True
+            if isinstance(other, (ast.ListComp, ast.GeneratorExp)) and len(other.generators) == 1 and not other.generators[0].ifs \
+                    and norm(other.generators[0].iter) == L:
+                return True
+    if isinstance(a, ast.Name) and isinstance(b, ast.Name):
+        return None
+    return None
+
+
+def r1_2b(repo: Repo) -> RuleResult:
+    """The value array of a CSR triple assembled in a row loop grows in lockstep with the index array: scipy rejects
+    (or, for equal totals, misreads) a triple whose data and indices have different lengths."""
+    rr = RuleResult("R1.2b", "CSR data and indices are extended together, by iterables of the same length", floor=4)
+    funcs: List[Func] = []
+    for c in exported_estimators(repo):
+        for e in ("fit", "fit_transform", "transform"):
+            for f in repo.reachable_from(c, e):
+                if f not in funcs:
+                    funcs.append(f)
+    for f in funcs:
+        for data, indices, indptr in _csr_names(repo, f):
+            pm = parents_map(f.node)
+            for lp in _row_loops_with_indptr(f, indptr):
+                ic = _appends(lp.body, indices, pm)
+                dc = _appends(lp.body, data, pm)
+                construct = "%s / %s in row loop over `%s`" % (data, indices, short(lp.iter, 40))
+
+                def block_of(call):
+                    st = enclosing_stmt(call, pm)
+                    return id(pm.get(id(st))), [a for a in ("body", "orelse") if any(st is x for x in getattr(pm.get(id(st)), a, []))]
+
+                if len(ic) != len(dc) or sorted(map(str, map(block_of, ic))) != sorted(map(str, map(block_of, dc))):
+                    rr.bad(f, construct, "%d append/extend call(s) to %s but %d to %s (or in different blocks): the two arrays of the CSR triple "
+                           "end up with different lengths and the constructor raises" % (len(ic), indices, len(dc), data), lp.lineno)
+                    continue
+                verdicts = []
+                for i_call in ic:
+                    mates = [d for d in dc if block_of(d) == block_of(i_call)]
+                    d_call = mates[0]
+                    if i_call.func.attr != d_call.func.attr:
+                        verdicts.append(False)
+                    elif i_call.func.attr == "append":
+                        verdicts.append(True)
+                    else:
+                        verdicts.append(_same_length(i_call.args[0], d_call.args[0]) if i_call.args and d_call.args else None)
+                if any(v is False for v in verdicts):
+                    rr.bad(f, construct, "one array is appended to where the other is extended: lengths differ", lp.lineno)
+                elif all(v is True for v in verdicts):
+                    rr.ok(f, construct, "%d paired call(s), equal lengths by construction" % len(ic), lp.lineno)
+                else:
+                    rr.ok(f, construct, "%d paired call(s) (lengths of the extended iterables not compared: unrecognised form)" % len(ic), lp.lineno, nontrivial=False)
+    return rr
+
+
 def r1_3(repo: Repo) -> RuleResult:
     rr = RuleResult("R1.3", "row loops of transform terminate each row exactly once (no skipped or doubled rows)", floor=8)
     for c in exported_estimators(repo):
@@ -677,7 +748,7 @@ def r1_9(repo: Repo) -> RuleResult:
                                     "transform raises UnboundLocalError for the inputs that take that path instead of returning one row per item")
 
 
-RULES = [r1_1, r1_2, r1_3, r1_4, r1_5, r1_6, r1_7, r1_8, r1_9]
+RULES = [r1_1, r1_2, r1_2b, r1_3, r1_4, r1_5, r1_6, r1_7, r1_8, r1_9]
 
 CLAIM = (
     "R1.1 every sparse matrix assembled from a coordinate/CSR triple on a transform path passes shape= whose column "
